@@ -37,7 +37,9 @@ def traceOracle (U : Universe) (P : Problem) (r : ImplSolve) : List String :=
   match Resolvo.Abs.runOpt U P events with
   | none =>
     (match Resolvo.Abs.run U P events with
-     | .error (k, ev) => [s!"oracle-fail C01,C02,C03,C05,C15 trace: event {k} of the solver history is not a legal step of the abstract system: {repr ev}".replace "\n" " "]
+     | .error (k, ev) => [s!"oracle-fail C01,C02,C03,C05,C15 trace: event {k} of the solver history is not a legal step of the abstract system: {repr ev}".replace "\n" " ",
+        -- the theorems of C07 / C08 speak about accepted histories: a rejected one breaks their tie to the implementation
+        s!"oracle-fail C07,C08 mdet-history-rejected: the solver history is not accepted by the abstract system (event {k}), so the theorems about accepted histories do not apply to this run"]
      | .ok _ => ["oracle-fail C01,C02,C03,C05,C15 trace: history rejected"])
   | some st =>
     if r.result == "unsat" && st.failed.isNone then
@@ -299,7 +301,7 @@ def mdetCompare (U : Universe) (ms : Resolvo.MDet.S) (o : Resolvo.MDet.Outcome) 
   else if mres.startsWith "panic" then []
   else if newTrace != r.trace then
     let k := ((newTrace.zip r.trace).takeWhile (fun p => p.1 == p.2)).length
-    [s!"oracle-fail C01,C02,C03,C05,C06,C10,C13,C14,C15 mdet-trace: solver history differs at event {k}: implementation `{r.trace.getD k "<end>"}` model `{newTrace.getD k "<end>"}`"]
+    [s!"oracle-fail C01,C02,C03,C05,C06,C07,C08,C10,C13,C14,C15 mdet-trace: solver history differs at event {k}: implementation `{r.trace.getD k "<end>"}` model `{newTrace.getD k "<end>"}`"]
   else if mconf != r.conflictClauses then [s!"oracle-fail C03,C06 mdet-conflict-clauses: implementation [{natList r.conflictClauses}] model [{natList mconf}]"]
   else
     -- Conflict::graph
